@@ -78,6 +78,9 @@ def lint(project, source, filename=None, debug=False):
             continue
         if getattr(name, 'is_star', None):
             continue
+        if name.name in flow.scope.nonlocals:
+            # rebinding of an enclosing function's variable, not a local
+            continue
         if isinstance(flow.scope, IGNORED_SCOPES):
             if isinstance(name, ImportedName):
                 if name.module == '__future__':
